@@ -107,6 +107,12 @@ func (e *Environment) StoreEnvironmentVariablesFromInitForInitCaching(host strin
 	e.credentials["AWS_CONTAINER_AUTHORIZATION_TOKEN"] = token
 
 	e.storeNonCredentialEnvironmentVariablesFromInit(customerEnv, handler, funcName, funcVer)
+
+	// With init caching the credentials are served by the credentials endpoint only: keys that
+	// came along with the customer variables must not reach the runtime's environment.
+	for _, key := range []string{"AWS_ACCESS_KEY_ID", "AWS_SECRET_ACCESS_KEY", "AWS_SESSION_TOKEN"} {
+		delete(e.Customer, key)
+	}
 }
 
 func (e *Environment) storeNonCredentialEnvironmentVariablesFromInit(customerEnv map[string]string, handler, funcName, funcVer string) {
